@@ -1,4 +1,4 @@
-(* C09: Table.merge (biom/table.py:3762-4023), its helpers _union_id_order /
+(* C09: Table.merge (biom/table.py:3762-4032), its helpers _union_id_order /
    _intersect_id_order (table.py:3391-3412), the pandas-free "fast" path _fast_merge
    (table.py:3698-3760) and the default metadata policy prefer_self (util.py:195-197),
    modelled on the content of tables.  IDs are integer codes that respect python's string
@@ -61,10 +61,14 @@ Definition merged_row (a b : table) (sord : list Z) (o : Z) : list Z :=
   | None, None => map (fun _ => 0%Z) sord      (* not reachable: o comes from one of the two *)
   end.
 
-(* ---- the general (pairwise) merge, table.py:3855-4023.
+(* table.py:3863-3870 (repair b9a3d3e4): a metadata function that is None stands for
+   "no metadata on that axis" *)
+Definition drop_md : mdf := fun _ _ => None.
+Definition f_or_drop (f : option mdf) : mdf := match f with Some g => g | None => drop_md end.
+
+(* ---- the general (pairwise) merge, table.py:3855-4032.
    Refusals, in the order the code meets them: unknown mode (TableException), no sample /
-   no observation left (TableException), a metadata function that is None is called
-   (TypeError: the sample loop runs first, both loops run at least once).
+   no observation left (TableException).
    The result is built by the plain constructor: no type. ---- *)
 Definition merge_general (a b : table) (sm om : mode) (fs fo : option mdf) : result table :=
   match order_for sm (sids a) (sids b) with
@@ -77,12 +81,8 @@ Definition merge_general (a b : table) (sm om : mode) (fs fo : option mdf) : res
       | [], _ => RErr E_TABLE
       | _, [] => RErr E_TABLE
       | _, _ =>
-        match fs, fo with
-        | Some f_s, Some f_o =>
-            ROk (mkT oord sord (map (merged_row a b sord) oord)
-                     (merged_md f_o Obs a b oord) (merged_md f_s Samp a b sord) NOTYPE)
-        | _, _ => RErr E_TYPE
-        end
+          ROk (mkT oord sord (map (merged_row a b sord) oord)
+                   (merged_md (f_or_drop fo) Obs a b oord) (merged_md (f_or_drop fs) Samp a b sord) NOTYPE)
       end
     end
   end.
